@@ -12,7 +12,7 @@
 //
 // Trace lines (tab separated):
 //
-//	B idx ncallers description config     (config: warn=nil|buf:N handler=0|1 fresh=0|1)
+//	B idx ncallers description config     (config: warn=nil|live|buf:N handler=0|1|2|3 fresh=0|1)
 //	S idx script-line                 the schedule as executed, with symbolic references (replay)
 //	A idx n label observation         one action: label for the Coq model, projected observation
 //	P idx class                       what the receive loop is about to work on (names the killer)
@@ -316,7 +316,8 @@ func (r *run) settleAndProbe() {
 	// probe: a new caller, one call, answered by the server
 	t := len(r.callers)
 	r.addCaller()
-	tok := int64(900000 + r.idx%1000)
+	tok := int64(5000000 + 10*(r.idx%1000) + r.nprobes)
+	r.nprobes++
 	r.doCall(t, callSpec{kind: "obj", token: tok})
 	r.runEnabled()
 	cs := r.callers[t].calls[0]
